@@ -78,7 +78,7 @@ type SpecFunc struct {
 	Opaque bool
 }
 
-var kwRe = regexp.MustCompile(`^(func|spec|readers|writers|between|safederef|preserved|internal|inline|eosexit|requires|ensures|decreases|loop|safe|modular|terminates|witness|witnessgo|unordered|usesonly|mapwrite|callsite|nobody|sitesonly|end)\b`)
+var kwRe = regexp.MustCompile(`^(func|spec|readers|writers|callers|between|safederef|preserved|internal|inline|eosexit|requires|ensures|decreases|loop|safe|modular|terminates|witness|witnessgo|unordered|usesonly|mapwrite|callsite|nobody|sitesonly|end)\b`)
 
 func (e *Engine) loadContracts() error {
 	e.contracts = map[string]*Contract{}
@@ -178,6 +178,11 @@ func (e *Engine) parseContractFile(file, pkgPath, data string) error {
 			if len(fields) >= 3 {
 				e.readers = append(e.readers, ReadersClause{Tags: tags, Global: fields[1], Funcs: strings.Split(fields[2], ",")})
 			}
+		case "callers":
+			// callers[Cxx] <function> <func>,<func>,...: the function is called directly only inside these functions
+			if len(fields) >= 3 {
+				e.callers = append(e.callers, CallersClause{Tags: tags, Callee: fields[1], Funcs: strings.Split(fields[2], ",")})
+			}
 		case "writers":
 			// writers[Cxx] <pkg.Type.Field> <func>,<func>,...: the field is stored to only inside these functions
 			if len(fields) >= 3 {
@@ -215,6 +220,9 @@ func (e *Engine) parseContractFile(file, pkgPath, data string) error {
 			}
 			e.specFuncs[name] = &SpecFunc{Name: name, Params: params, Body: ex, Pkg: pkgPath, Text: body, Opaque: opaque}
 		case "func":
+			if prev := e.contracts[rest]; prev != nil {
+				return fmt.Errorf("%s:%d: second contract block for %s (first at %s:%d): merge them", file, l.line, rest, prev.File, prev.Line)
+			}
 			cur = &Contract{Func: rest, Pkg: pkgPath, LoopInv: map[int][]*Clause{}, LoopDecr: map[int]*Clause{}, Witness: map[string]string{}, Line: l.line, File: file}
 			e.contracts[rest] = cur
 			e.contractOrder = append(e.contractOrder, rest)
